@@ -139,7 +139,127 @@ def run(ctx):
     finally:
         rp.prep_run_physical = orig_prep
         gc.unfreeze()
+    extra_scenarios(ctx, uberjob)
     sentinel(ctx)
+
+
+def extra_scenarios(ctx, uberjob):
+    """(A) the inputs of a consumer that FAILS are released too (the failure happens inside C code, so no Python frame of
+    the call keeps them alive) while the run goes on; (B) with retry >= 2 the inputs of a call whose first attempt raised
+    are released by reference counting alone (cyclic GC switched off) once it has finished."""
+    import operator
+    import threading
+    import time
+    import weakref
+
+    class Big:
+        pass
+
+    # ---- (A)
+    for scheduler in (None, "random"):
+        for variant in ("c-level-failure", "second-failure"):
+            verdicts, box = [], {}
+
+            def make2():
+                b = Big()
+                box["wr"] = weakref.ref(b)
+                return b
+
+            gate = threading.Event()
+
+            def bad_py2(x):
+                gate.wait(5)
+                time.sleep(0.1)          # the earlier failure has been recorded as the run's first error by now
+                raise ValueError("consumer fails")
+
+            def first_bad2():
+                gate.set()
+                raise ValueError("an earlier, unrelated failure")
+
+            def probe2():
+                t0 = time.time()
+                while time.time() - t0 < 3.0:
+                    if "wr" in box and box.get("consumer_done"):
+                        gc.collect()
+                        if box["wr"]() is None:
+                            verdicts.append("released")
+                            return 1
+                    time.sleep(0.01)
+                verdicts.append("kept")
+                return 0
+
+            import uberjob._execution.run_physical as rp
+            orig = rp.prep_run_physical
+
+            def w_prep2(plan, **kw):
+                r = orig(plan, **kw)
+                proc = r.process
+
+                def process(node):
+                    try:
+                        proc(node)
+                    finally:
+                        if getattr(node, "fn", None) in (operator.index, bad_py2):
+                            box["consumer_done"] = True
+                return r._replace(process=process)
+            p = uberjob.Plan()
+            big = p.call(make2)
+            others = []
+            if variant == "c-level-failure":
+                others.append(p.call(operator.index, big))
+            else:
+                others.append(p.call(first_bad2))
+                others.append(p.call(bad_py2, big))
+            pr = p.call(probe2)
+            rp.prep_run_physical = w_prep2
+            try:
+                try:
+                    uberjob.run(p, output=[pr] + others, max_workers=3, max_errors=None, scheduler=scheduler, progress=None)
+                except uberjob.CallError:
+                    pass
+            finally:
+                rp.prep_run_physical = orig
+            ctx.case(("c16-failing-consumer-verdict", variant, scheduler))
+            ctx.count("failing_consumer_verdict", verdicts[0] if verdicts else "none")
+            if verdicts and verdicts[0] == "kept":
+                ctx.fail("failing-consumer:inputs-kept", "the input of a consumer that failed (%s) stayed alive while the run went on" % variant,
+                         {"variant": variant, "scheduler": scheduler, "max_errors": None, "max_workers": 3})
+
+    # ---- (B) retry: reference counting alone releases the inputs of a call whose first attempt raised
+    for workers in (1, 4):
+        for scheduler in (None, "random"):
+            box, attempts = {}, [0]
+
+            def make3():
+                b = Big()
+                box["wr"] = weakref.ref(b)
+                return b
+
+            def flaky(x):
+                attempts[0] += 1
+                if attempts[0] == 1:
+                    raise ValueError("first attempt fails")
+                return 7
+
+            def probe3(small):
+                box["alive_at_probe"] = box["wr"]() is not None
+                return small
+
+            p = uberjob.Plan()
+            pr = p.call(probe3, p.call(flaky, p.call(make3)))
+            was = gc.isenabled()
+            gc.disable()
+            try:
+                uberjob.run(p, output=pr, retry=2, max_workers=workers, scheduler=scheduler, progress=None)
+            finally:
+                if was:
+                    gc.enable()
+                gc.collect()
+            ctx.case(("c16-retry-refcount", workers, scheduler))
+            if box.get("alive_at_probe"):
+                ctx.fail("retry:cycle-keeps-result", "with retry=2 the input of a call whose first attempt raised is still alive (cyclic GC off) "
+                         "after the call finished: something in uberjob's retry path still references it",
+                         {"workers": workers, "scheduler": scheduler})
 
 
 def _run(ctx, uberjob, rng, state, GATHER, Call):
